@@ -2,7 +2,9 @@
 
 STABLE PUBLIC API (reused by C03 C08 C09 C10 C30 C32 C35 C38; do not change signatures)
 ---------------------------------------------------------------------------------------
-    programs(max_depth=4, max_nodes=25, *, autoescape=False, errors=True) -> strategy of programs
+    programs(max_depth=4, max_nodes=25, *, autoescape=False, errors=True, extras=False) -> strategy of programs
+                                       extras=True adds macro extras: bodies reading ``varargs`` / ``kwargs`` with calls
+                                       passing surplus arguments, and defaults that name their own / a later parameter
     datas(n=3)                         -> strategy of a list of n data dicts for a program
     print_program(prog, rename=None)   -> str     Jinja source (loopcontrols extension needed for break/continue)
     print_expr(expr, rename=None)      -> str
@@ -42,6 +44,8 @@ is the tag.  ``body`` below is again a list of statements, ``e`` an expression, 
     ["loopattr", attr]                            loop.index ... (only where a loop of the same frame nest is visible)
     ["call", m, [args], [[kw, e], ...]]           macro call (value = rendered string)
     ["caller", [args]]                            caller(...) directly in a macro body
+    ["special", "varargs"|"kwargs"]               the macro's surplus positional / keyword arguments (only with
+                                                  programs(extras=True); generated under length / join / first only)
     ["looprec", n]                                (loop(n) if n is a list else '') in a recursive loop
 
 Name pools: variables VARS (shared between template assignments and the render data), macro names
@@ -175,6 +179,8 @@ def print_expr(e, rename=None):
         return "%s(%s)" % (_id(e[1], R), ", ".join(parts))
     if k == "caller":
         return "caller(%s)" % ", ".join(print_expr(x, R) for x in e[1])
+    if k == "special":
+        return e[1]
     if k == "looprec":
         n = _id(e[1], R)
         return "(loop(%s) if (%s is iterable and %s is not string) else '')" % (n, n, n)
@@ -412,7 +418,7 @@ _STRS = ("", "p", "q", "Ab", "z z")
 
 
 class _Lex:
-    """Lexical generation context.  ``macros`` (name -> (params, mentions caller, caller argument count)) and ``nss`` are the macro and
+    """Lexical generation context.  ``macros`` (name -> (params, mentions caller, caller argument count, reads varargs, reads kwargs)) and ``nss`` are the macro and
     namespace names probably defined at this point; they only steer the generator towards programs that render."""
 
     __slots__ = ("depth", "loopctl", "loopvis", "rec", "in_macro", "mrank", "loops", "macros", "nss")
@@ -448,10 +454,21 @@ def _caller_args(body):
     return best
 
 
+def _uses_special(body, which):
+    for s in body:
+        for e in stmt_exprs(s):
+            if any(x[0] == "special" and x[1] == which for x in walk_expr(e)):
+                return True
+        for kind, b in sub_bodies(s):
+            if kind not in ("macro", "callblock") and _uses_special(b, which):
+                return True
+    return False
+
+
 class _Gen:
-    def __init__(self, draw, max_depth, max_nodes, autoescape, errors):
+    def __init__(self, draw, max_depth, max_nodes, autoescape, errors, extras=False):
         self.draw, self.max_depth, self.budget = draw, max_depth, max_nodes
-        self.autoescape, self.errors = autoescape, errors
+        self.autoescape, self.errors, self.extras = autoescape, errors, extras
 
     # -- small draws
     def i(self, lo, hi):
@@ -526,6 +543,7 @@ class _Gen:
                  ("loopattr", 6 if lex.loopvis else 0),
                  ("call", 8 if self.callable_macros(lex) else 0),
                  ("caller", 3 if lex.in_macro else 0),
+                 ("special", 4 if lex.in_macro and self.extras else 0),
                  ("looprec", 10 if lex.rec is not None else 0)]
         k = self.weighted(table)
         if k == "atom":
@@ -567,7 +585,30 @@ class _Gen:
             return ["caller", [self.expr(lex, d - 1) for _ in range(self.weighted([(0, 2), (1, 3), (2, 1)]))]]
         if k == "looprec":
             return ["looprec", lex.rec]
+        if k == "special":
+            return self.special(self.pick(("varargs", "kwargs")))
         raise AssertionError(k)
+
+    def special(self, which):
+        # kwargs only under length: its keys are identifiers, printing them would (rightly) change under renaming
+        if which == "kwargs":
+            return ["filt", "length", ["special", "kwargs"], []]
+        f = self.pick(("length", "join", "first"))
+        return ["filt", f, ["special", "varargs"], [["str", ","]] if f == "join" else []]
+
+    def surplus(self, lex, m, args, kwargs, d):
+        """Surplus arguments for a macro that reads varargs / kwargs (all parameters are then passed positionally)."""
+        params, _, _, va, kw = lex.macros[m]
+        if va and self.chance(2, 3):
+            while len(args) < len(params):
+                args.append(self.expr(lex, d - 1))
+            del kwargs[:]
+            args.extend(self.atom(lex) for _ in range(self.i(1, 3)))
+        if kw and self.chance(2, 3):
+            given = set(params[: len(args)]) | {k for k, _ in kwargs}
+            free = [q for q in SCALARS if q not in params and q not in given]
+            for q in free[: self.i(1, 2)]:
+                kwargs.append([q, self.atom(lex)])
 
     def cond(self, lex, d=1):
         k = self.weighted([("name", 3), ("cmp", 4), ("defined", 3), ("expr", 2)])
@@ -600,7 +641,9 @@ class _Gen:
             args = [self.expr(lex, d - 1) for _ in range(npos)]
             kwargs = [[p, self.expr(lex, d - 1)] for p in params[npos:] if self.chance(1, 3)]
             if self.errors and self.chance(1, 25):
-                args.append(self.atom(lex))  # surplus positional argument: TypeError
+                args.append(self.atom(lex))  # surplus positional argument: TypeError (unless the macro reads varargs)
+            if self.extras:
+                self.surplus(lex, m, args, kwargs, d)
             return ["call", m, args, kwargs]
         m = MACROS[self.i(0, lex.mrank - 1)]
         args = [self.expr(lex, d - 1) for _ in range(self.i(0, 2))]
@@ -625,10 +668,12 @@ class _Gen:
             if lex.macros.get(name) is None or not self.chance(3, 4):
                 continue
             self.budget -= 1
-            params, has_caller, nca = lex.macros[name]
+            params, has_caller, nca = lex.macros[name][:3]
             npos = self.i(0, len(params))
             call = ["call", name, [self.expr(lex, 1) for _ in range(npos)],
                     [[q, self.expr(lex, 1)] for q in params[npos:] if self.chance(1, 3)]]
+            if self.extras:
+                self.surplus(lex, name, call[2], call[3], 2)
             if has_caller:
                 cps = list(SCALARS[: (nca if self.chance(5, 6) or not self.errors else self.i(0, 2))])
                 use = ["callblock", cps, call, self.block(lex.child(loopctl=False, loopvis=False, rec=None, in_macro=False), 1, 2)]
@@ -761,8 +806,12 @@ class _Gen:
             idx = len(params) - ndef + j
             later = set(params[idx:])
             e = self.expr(lex, 1)
-            # excluded by construction: a default that reads its own or a later parameter (undocumented)
-            if any(n in later for n in expr_names(e)):
+            # a default that reads its own or a later parameter: which value it sees is not documented, so it is only
+            # generated with extras=True (the reference then accepts "undefined" and "the enclosing variable")
+            if self.extras and self.chance(1, 2):
+                own = ["name", self.pick(sorted(later))] if self.chance(1, 3) else ["name", params[idx]]
+                e = own if self.chance(1, 2) else ["filt", "default", own, [self.atom(lex)]]
+            elif any(n in later for n in expr_names(e)) and not (self.extras and self.chance(1, 2)):
                 e = self.atom_not(lex, later)
             defaults.append(e)
         # loop.* / break / continue / loop() across the macro boundary are not generated; body may call m<j>, j<k
@@ -770,8 +819,12 @@ class _Gen:
         body = self.block(mlex, 1, 4)
         if self.chance(1, 3):
             body.insert(self.i(0, len(body)), ["out", ["caller", [self.atom(mlex) for _ in range(self.i(0, 2))]]])
+        if self.extras and self.chance(1, 8):
+            # a body that reads both special names (each alone is produced by the expression generator as well)
+            for which in ("varargs", "kwargs") if self.chance(1, 2) else ("kwargs", "varargs"):
+                body.insert(self.i(0, len(body)), ["out", self.special(which)])
         nca = _caller_args(body)
-        lex.macros[name] = (params, nca is not None, nca or 0)
+        lex.macros[name] = (params, nca is not None, nca or 0, _uses_special(body, "varargs"), _uses_special(body, "kwargs"))
         return ["macro", name, params, defaults, body]
 
     def atom_not(self, lex, banned):
@@ -782,11 +835,11 @@ class _Gen:
 
 
 @st.composite
-def programs(draw, max_depth=4, max_nodes=25, autoescape=False, errors=True):
+def programs(draw, max_depth=4, max_nodes=25, autoescape=False, errors=True, extras=False):
     """Statement programs.  ``errors=False`` drops the operations that can raise on ill-typed data
     (ordering comparisons, ``+``/``-``, ``length``/``join``/``first``, calls of unknown macros) for callers that
     want programs that (almost always) render."""
-    g = _Gen(draw, max_depth, max_nodes, autoescape, errors)
+    g = _Gen(draw, max_depth, max_nodes, autoescape, errors, extras)
     return g.block(_Lex(), 1, 6)
 
 
